@@ -81,7 +81,7 @@ std::optional<ChunkRecord> ChunkStore::get_record(const ChunkId& id) {
     }
 
     if (std::chrono::steady_clock::now() >= it->second.expires_at) {
-        chunks_.erase(it);
+        // Leave the record for sweep_expired(): it wipes the persisted file and reports the expiry.
         return std::nullopt;
     }
 
